@@ -498,7 +498,14 @@ class TextXVisitor(RRELVisitor):
             # haven't got any attributes and reference at least one non-match
             # rule.
             abstract = False
-            if rule.rule_name and cls.__name__ != rule.rule_name:
+            # The body of an alias rule is a single rule reference: the rule's
+            # PEG node is the referenced rule's (which may be a rule of the
+            # same name in an imported grammar).
+            is_alias = bool(rule.rule_name) and (
+                cls.__name__ != rule.rule_name
+                or getattr(rule, "_tx_class", cls) is not cls
+            )
+            if is_alias:
                 # Special case. Body of the rule is a single rule reference and
                 # the referenced rule is not match rule.
                 # The referenced rule may live in another (imported) grammar:
@@ -531,7 +538,7 @@ class TextXVisitor(RRELVisitor):
                 # a referenced rule may become abstract in a later pass and
                 # then takes the place of a class found after it.
                 inh_by = []
-                if rule.rule_name and cls.__name__ != rule.rule_name:
+                if is_alias:
                     inh_by.append(rule._tx_class)
                 else:
                     # Recursively append all referenced classes.
